@@ -562,8 +562,11 @@ func (dec *Decoder) Literal(ptr *string) bool {
 	}
 	if dec.CheckBufferedLiteralFunc != nil {
 		if err := dec.CheckBufferedLiteralFunc(lit.Size(), nonSync); err != nil {
-			lit.cancel()
-			return false
+			// The literal is left open: its payload will not be read, so
+			// nothing more can be decoded from this command. The caller
+			// gets the refusal as the decoder error instead of blocking
+			// on input the peer is not going to send.
+			return dec.returnErr(err)
 		}
 	}
 	var sb strings.Builder
